@@ -132,7 +132,7 @@ fn main() {
                         let k = match r {
                             world::Res::Err(e) => format!("Err({})", e.kind()),
                             world::Res::SchedErr(e) => format!("SchedErr({:?})", e),
-                            world::Res::Panicked(_) => "Panicked".to_string(),
+                            world::Res::Panicked(m) => format!("Panicked({})", m.chars().take(160).collect::<String>()),
                             world::Res::Replies(v) => format!("Replies(n={})", v.len()),
                             other => format!("{:?}", other),
                         };
